@@ -35,6 +35,58 @@ func hangTimeoutOf(e Engine) time.Duration {
 	return 45 * time.Second
 }
 
+// WatchExecutions wraps an engine so that one execution that does not end
+// stops the process with exit code 77.  The watchdog counts its own two-second
+// TICKS during which the same execution is still running, not wall-clock time:
+// a machine that is frozen for a minute (a VM snapshot) lets one tick pass, not
+// thirty, so a pause of the whole machine can never read as a hang.
+func WatchExecutions(e Engine, limit time.Duration) Engine {
+	var seq, running int64 // seq: number of executions started; running: 1 while one is in progress
+	go func() {
+		last, stuck := int64(-1), 0
+		for {
+			time.Sleep(2 * time.Second)
+			cur := atomic.LoadInt64(&seq)
+			if atomic.LoadInt64(&running) == 1 && cur == last {
+				stuck++
+			} else {
+				stuck = 0
+			}
+			last = cur
+			if time.Duration(stuck)*2*time.Second > limit {
+				os.Exit(77)
+			}
+		}
+	}()
+	realExec := e.Exec
+	return timedEngine{e, func(s *Script, keep bool) *Result {
+		atomic.AddInt64(&seq, 1)
+		atomic.StoreInt64(&running, 1)
+		defer atomic.StoreInt64(&running, 0)
+		return realExec(s, keep)
+	}}
+}
+
+// ExecOneLimit: the limit for one execution in `tabsim exec-one` — what the
+// parent asks for (TABSIM_HANG_S), else the engine's own.
+func ExecOneLimit(e Engine) time.Duration {
+	if v, err := strconv.Atoi(os.Getenv("TABSIM_HANG_S")); err == nil && v > 0 {
+		return time.Duration(v) * time.Second
+	}
+	return hangTimeoutOf(e)
+}
+
+func preludeRuns(s *Script) int {
+	if s.Prelude == nil {
+		return 0
+	}
+	n := len(s.Prelude.Indices)
+	if s.Prelude.Repeat > 1 {
+		n *= s.Prelude.Repeat
+	}
+	return n
+}
+
 // timedEngine wraps an engine so that every Exec is visible to the watchdog.
 type timedEngine struct {
 	Engine
@@ -107,22 +159,7 @@ func RunWorker(e Engine, tier string, batch uint64, lo, hi, stride int, deadline
 	if bitmapPath != "" {
 		cur, _ = os.Create(bitmapPath + ".cur")
 	}
-	var execStart int64 // unix nanos of the running execution, 0 = none
-	hangTimeout := hangTimeoutOf(e)
-	go func() {
-		for {
-			time.Sleep(2 * time.Second)
-			if t := atomic.LoadInt64(&execStart); t != 0 && time.Now().UnixNano()-t > int64(hangTimeout) {
-				os.Exit(77)
-			}
-		}
-	}()
-	realExec := e.Exec
-	e = timedEngine{e, func(s *Script, keep bool) *Result {
-		atomic.StoreInt64(&execStart, time.Now().UnixNano())
-		defer atomic.StoreInt64(&execStart, 0)
-		return realExec(s, keep)
-	}}
+	e = WatchExecutions(e, hangTimeoutOf(e))
 	for idx := lo; idx < hi; idx += stride {
 		if cur != nil {
 			var b [8]byte
@@ -659,7 +696,7 @@ func RunReplay(path string, verbose bool) int {
 	}
 	if s.Expect != nil && isDeathSig(s.Expect.Signature) {
 		exe, _ := os.Executable()
-		got := execOutcome(exe, path, 3*hangTimeoutOf(e))
+		got := execOutcome(exe, path, 3*hangTimeoutOf(e), preludeRuns(s))
 		fmt.Printf("replay: property=%s seed=%d steps=%d outcome in a fresh process: %s\n", s.Property, s.Seed, s.NSteps(), got)
 		if s.Property+"/"+got == s.Expect.Signature {
 			fmt.Println("replay: REPRODUCED (same fatal outcome)")
